@@ -67,6 +67,11 @@ def gen_cases(tier, seed):
                 kw['dark'] = rng.choice(COLORS)
             if rng.random() < 0.5:
                 kw['light'] = rng.choice(COLORS + ([None] if kind in ('png', 'svg', 'eps', 'pdf', 'pam', 'xpm') else []))
+        if kind in ('png', 'svg') and rng.random() < 0.3:
+            kw['dark'] = rng.choice(['#12345680', '#abcd', '#0000ffcc', (10, 20, 30, 128)])
+            kw['light'] = rng.choice([None, None, '#ffffff80', 'white'])
+            if rng.random() < 0.5:
+                kw['finder_dark'] = rng.choice(['black', 'red', None])
         if kind == 'txt' and rng.random() < 0.4:
             kw['dark'], kw['light'] = rng.choice([('X', '_'), ('#', '.'), ('A', 'B')])
         if kind == 'tex':
